@@ -330,6 +330,12 @@ impl NestedTrieDawg {
 
     /// Insert a single key into the trie structure
     fn insert_key(&mut self, key: &[u8]) -> Result<()> {
+        // A DAWG created with new() has no states yet: create the root first, otherwise
+        // the first child would be given the root's id and loop back onto it.
+        if self.states.is_empty() {
+            self.root_state = self.add_state(0, false, false)?;
+        }
+
         let mut current_state = self.root_state;
 
         // Traverse/create path for the key
@@ -346,8 +352,11 @@ impl NestedTrieDawg {
 
         // Mark final state as terminal
         if (current_state as usize) < self.states.len() {
-            self.states[current_state as usize].set_terminal(true);
-            self.num_keys += 1;
+            // Count the key only if it was not already present
+            if !self.states[current_state as usize].is_terminal() {
+                self.states[current_state as usize].set_terminal(true);
+                self.num_keys += 1;
+            }
         }
 
         Ok(())
